@@ -1,5 +1,7 @@
 import Chain33Model.Proofs.C01Batch
 import Chain33Model.Proofs.C01Store
+import Chain33Model.Proofs.C01Consistent
+import Chain33Model.Proofs.C01Remove
 /-!
 C01 — State tree behaves as a persistent versioned map.  Property theorems only (helpers: Proofs/C01*.lean).
 
@@ -158,5 +160,88 @@ example : ∃ (n' : Node) (db' : NodeDB),
     refine ⟨?_, ?_⟩
     · intro p hp q hq _; simp at hp hq; rw [hp, hq]
     · intro p hp v hv; simp at hv
+
+/-! ### `Consistent` discharged: stores without the height prefix -/
+
+/-- **set_keyMin** — `set` keeps "the inner key is the smallest key of the right subtree" (the part of the tree
+invariant that makes a node record a function of the node's hashed content). -/
+theorem set_keeps_keyMin (t : Node) (k v : Bytes) (hst : ST t) (hkm : KeyMin t) (t' : Node) (u : Bool)
+    (e : t.set k v = some (t', u)) : KeyMin t' :=
+  set_keyMin t k v hst hkm t' u e
+
+/-- **merkle_binding** — two well-formed trees with the same hash have the same content (keys, values, shape,
+stored heights and sizes, inner keys), or the hash function has a collision. -/
+theorem merkle_binding {H : Bytes → Bytes} (hlen : ∀ x, (H x).length = 32) (n m : Node)
+    (sn : C03.Shape n) (sm : C03.Shape m) (kn : KeyMin n) (km : KeyMin m)
+    (e : C02.pureHash H n = C02.pureHash H m) : C02.erase n = C02.erase m ∨ C03.Collision H :=
+  pureHash_inj hlen n m sn sm kn km e
+
+/-- **load_save_or_collision** (full, store without `EnableMavlPrefix`) — `PH H n`: every node of the tree is keyed by the hash of
+its content (what `Node.Hash` does without the prefix: `hashNode_keys_content`); `DBInv`: the database only holds
+records of well-formed nodes under their hashes (kept by `save`, part of the conclusion).  Then `save` makes the
+tree loadable exactly as saved and keeps every earlier record — or the hash function has a collision.
+With the height prefix the statement is false for the *root* record (same root hash, other child keys: the
+mechanism behind the C02 finding); there `load_save_partial` with its explicit `Consistent` stays. -/
+theorem load_save_or_collision {H : Bytes → Bytes} (hlen : ∀ x, (H x).length = 32) (cfg : Cfg) (n n' : Node) (db db' : NodeDB)
+    (hsave : save cfg n db = some (n', db')) (hp : PH H n) (hs : C03.Shape n) (hk : KeyMin n)
+    (hdb : DBInv H cfg db) (hps : PersistedStored cfg db n) (hf : FitsRec n)
+    (fuel : Nat) (top : Bool) (hd : depth n < fuel) :
+    (load db' fuel top (C02.pureHash H n) = .ok (asLoaded cfg n) ∧ Sub db db' ∧ Stored cfg db' n' ∧
+      DBInv H cfg db') ∨ C03.Collision H :=
+  load_save_full hlen cfg n n' db db' hsave hp hs hk hdb hps hf fuel top hd
+
+/-- how `PH` comes about: without the prefix, `Node.Hash` on a tree whose untouched parts are keyed by content
+(`PHoF`, kept by `set`: `set_phoF`) keys every node by the hash of its content and returns the pure hash. -/
+theorem hashNode_keys_content {H : Bytes → Bytes} (cfg : Cfg) (hpf : cfg.pfx = false) (bh rh : Nat) (t : Node)
+    (hf : PHoF H t) : PH H (hashNode H cfg bh rh t).1 ∧ (hashNode H cfg bh rh t).2 = C02.pureHash H t :=
+  let ⟨a, b, _⟩ := hashNode_PH cfg hpf bh rh t hf
+  ⟨a, b⟩
+
+/-- non-vacuity: the empty database satisfies `DBInv`; a fresh leaf is `PHoF`, `KeyMin`, `Shape`. -/
+example (H : Bytes → Bytes) : DBInv H Cfg.default {} ∧ PHoF H (.leaf [1] [2] Meta.fresh) ∧
+    KeyMin (.leaf [1] [2] Meta.fresh) ∧ C03.Shape (.leaf [1] [2] Meta.fresh) :=
+  ⟨fun k v h => by simp at h, Or.inl rfl, trivial, trivial⟩
+
+/-! ### removal (`Tree.Remove` / `DelKVPair`) -/
+
+/-- **remove_inv** — `Node.remove` never panics and, when it rebuilds the subtree, keeps the search-tree order, the
+stored height/size fields with the AVL balance, and "inner key = leftmost key of the right subtree" (that is what the
+`newKey` propagation is for); one leaf less, at most one level less. -/
+theorem remove_inv (t : Node) (key : Bytes) (hst : ST t) (hwf : WF t) (hkm : KeyMin t) :
+    ∃ res, t.remove key = some res ∧
+      ∀ n' nkey v, res = .replaced n' nkey v →
+        ST n' ∧ WF n' ∧ KeyMin n' ∧ n'.size + 1 = t.size ∧ n'.height ≤ t.height ∧ t.height ≤ n'.height + 1 := by
+  obtain ⟨res, e, ok⟩ := remove_spec t key hst hkm
+  refine ⟨res, e, ?_⟩
+  intro n' nkey v hr
+  subst hr
+  obtain ⟨_, _, o3, o4, _, _⟩ := ok
+  obtain ⟨w, a, b, c⟩ := remove_WF t key hwf n' nkey v e
+  exact ⟨o3, w, o4, a, b, c⟩
+
+/-- **get_remove** — `Tree.Remove` returns the value the key had, the new tree satisfies the invariant, its leaf list
+is the old one without that key, and reading any key afterwards gives nothing for the removed key and the old answer
+for every other key. -/
+theorem get_remove (t : Tree) (k : Bytes) (hi : TInvK t) :
+    ∃ t' v, Tree.remove t k = some (t', v) ∧ TInvK t' ∧ v = (Tree.get t k).2 ∧
+      Tree.toList t' = dropKey k (Tree.toList t) ∧
+      ∀ k', (Tree.get t' k').2 = if k' = k then none else (Tree.get t k').2 := by
+  obtain ⟨t', v, e, hi', hv, hl⟩ := Tree.remove_spec t k hi
+  refine ⟨t', v, e, hi', hv, hl, ?_⟩
+  intro k'
+  have g1 : (Tree.get t' k').2 = SMap.lookup k' (Tree.toList t') := by
+    cases t' with
+    | none => rfl
+    | some n => exact get_eq_lookup n k' hi'.1
+  have g2 : (Tree.get t k').2 = SMap.lookup k' (Tree.toList t) := by
+    cases t with
+    | none => rfl
+    | some n => exact get_eq_lookup n k' hi.1
+  rw [g1, hl, lookup_dropKey, g2]
+
+/-- non-vacuity: a two-leaf tree satisfies `TInvK`. -/
+example : TInvK (some (.inner [98] 1 2 (.leaf [97] [1] Meta.fresh) (.leaf [98] [2] Meta.fresh) Meta.fresh)) := by
+  refine ⟨⟨trivial, trivial, ?_, ?_⟩, ⟨trivial, trivial, rfl, rfl, by decide, by decide⟩, ⟨trivial, trivial, rfl⟩⟩ <;>
+    simp [lt, le, cmpB]
 
 end C01
